@@ -112,6 +112,8 @@ Proof.
   cbv beta. match goal with |- context [Nat.ltb ?x ?y] => destruct (Nat.ltb_spec x y) as [L|L] end.
   { exists ERelUnspec. reflexivity. }
   cbn [negb guard]. rewrite (sa_bind_ok (m := ret tt) (s := s) eq_refl).
+  destruct (rels_distinct rels); cbn [guard]; [|exists ERelUnspec; reflexivity].
+  rewrite (sa_bind_ok (m := ret tt) (s := s) eq_refl).
   destruct (place_targets a rels (repeat zero_ent (length (a_comps a)))) as [targets|] eqn:EP.
   2:{ exists EIndex. reflexivity. }
   cbn [of_opt]. rewrite (sa_bind_ok (m := ret targets) (s := s) eq_refl).
@@ -170,10 +172,13 @@ Proof.
   subst s1. clear Ha.
   apply rl_bind_inv in H as ([] & s1 & Hg & H).
   assert (s1 = s) by (unfold guard in Hg; destruct (negb _); inversion Hg; auto). subst s1. clear Hg.
+  apply rl_bind_inv in H as ([] & s1 & Hg & H).
+  assert (s1 = s) by (unfold guard in Hg; destruct (rels_distinct _); inversion Hg; auto). subst s1. clear Hg.
   apply rl_bind_inv in H as (targets & s1 & Hp & H).
   assert (s1 = s) by (unfold of_opt in Hp; destruct (place_targets _ _ _); inversion Hp; auto). subst s1. clear Hp.
   apply rl_bind_inv in H as ([] & s1 & Hf & H).
   apply rl_forM_check_rel_ok in Hf as [-> HF].
+  apply rl_bind_inv in H as ([] & sR & HR & H). clear HR.
   apply rl_bind_inv in H as (s0 & s1 & Hget & H). inversion Hget; subst s0 s1. clear Hget.
   apply rl_bind_inv in H as (tid0 & s1 & Htid & H).
   apply rl_bind_inv in H as (t & s2 & Ht & H).
@@ -193,13 +198,13 @@ Proof.
       rewrite sa_nth_error_snoc_new in Ht'. inversion Ht'. reflexivity.
     + unfold bind, modA, modT, modify, ret in Htid. inversion Htid; subst tid s1. clear Htid. cbn in Ht'.
       rewrite nth_error_updf, Nat.eqb_refl in Ht'.
-      destruct (nth_error (w_tables s) f); inversion Ht'. reflexivity.
+      destruct (nth_error (w_tables sR) f); inversion Ht'. reflexivity.
   - destruct (rev (a_free a)) as [|f fr].
     + unfold bind, modify, ret in Htid. inversion Htid; subst tid s1. clear Htid. cbn in Ht'.
       rewrite sa_nth_error_snoc_new in Ht'. inversion Ht'. reflexivity.
     + unfold bind, modA, modT, modify, ret in Htid. inversion Htid; subst tid s1. clear Htid. cbn in Ht'.
       rewrite nth_error_updf, Nat.eqb_refl in Ht'.
-      destruct (nth_error (w_tables s) f); inversion Ht'. reflexivity.
+      destruct (nth_error (w_tables sR) f); inversion Ht'. reflexivity.
   - eapply Forall_impl; [|exact HF]. intros r Hr. apply rl_rel_ok_true. exact Hr.
 Qed.
 
